@@ -107,6 +107,8 @@ def run(cx):
     r5(cx)
     cx.rule("C01.R6", "TS", "a task that ends during exec / update is emitted in its final state before control returns (the ending is told: the parent is reviewed from there)")
     r6(cx)
+    cx.rule("C01.R7", "K1", "a parent whose children are all terminal is closed by its review: the completing write of Step / Act / Branch / Workflow::review depends on nothing but the task running and the all-children-terminal fact (a review that withholds the completion for some other reason leaves the task running with nothing left to wake it)")
+    r7_review_closes(cx)
 
 
 class EndToldMon(T.Monitor):
@@ -394,3 +396,27 @@ def r5(cx):
                     ok = bool(se) and bool(ee) and all(g.dominates(a.b, b.b) for a in se for b in ee)
     cx.ob("C01.R5", "scheduler:exec-error", ok, "a failing `exec` in the scheduler loop marks the task as error and then propagates it (`set_err` before `emit_error`)", loc)
     cx.floor("C01.R5", 2)
+
+
+def r7_review_closes(cx):
+    m = cx.m
+    pa = Prov(m, "alias")
+    allowed = [r"^TaskState::is_running=True$", r"^TaskState::is_completed=False$", r"^Eq\(count,.*len\(\)\)=True$",
+               r"^match\(.*Iterator.*next\)=(None|Some)$", r"^match\(.*branch.*\)=Continue$",
+               # what the scan tests on each CHILD before it counts it (a failed / skipped / resumable child ends the scan)
+               r"^TaskState::is_(error|skip|success|pending)=False$", r"^Task::is_ready=False$", r"is_empty=True$",
+               r"^<.* as Iterator>::all=True$", r"Iterator.*::all=True$"]
+    n = 0
+    for q, f in sorted(m.fns.items()):
+        if not re.search(r"ActTask for acts::model::\w+::\w+>::review$", q):
+            continue
+        for c in f.calls():
+            if c.q != T.Q_SET_STATE:
+                continue
+            r = pa.root(f, c.args[1])
+            recv = pa.root(f, c.args[0])
+            if r[0] == "agg" and r[2] == "Completed" and recv[0] == "call" and recv[1] == T.Q_CTX_TASK:
+                n += 1
+                exact_guards(cx, "C01.R7", "closes:%s" % f.short, f, c.b, required=[r"^TaskState::is_running=True$"], allowed=allowed,
+                             what="`%s` completes its task as soon as all children are terminal" % f.short, loc=c.loc)
+    cx.floor("C01.R7", 4)
